@@ -1,0 +1,247 @@
+//go:build verif
+
+// Contracts for package zapcore, read by /verif/govc (contract-based deductive
+// verification). This file contains only comments and is compiled only under
+// the build tag "verif".
+
+package zapcore
+
+// ---------------------------------------------------------------------------
+// shared specification functions
+
+//@ spec func enabled(e Iface, l type(Level)) bool
+//@ spec func minOver(a arr(int), k int) int
+//@ axiom minOver_base: forall a arr(int) :: minOver(a, 1) == a[0]
+//@ axiom minOver_step: forall a arr(int), k int :: k >= 1 ==> minOver(a, k+1) == (a[k] < minOver(a, k) ? a[k] : minOver(a, k))
+//@ axiom minOver_frame: forall a arr(int), k int, j int, v int :: j >= k ==> minOver(store(a, j, v), k) == minOver(a, k)
+//@ spec func errFold(a arr(error), k int) error
+//@ axiom errFold_base: forall a arr(error) :: errFold(a, 0) == nil
+//@ axiom errFold_step: forall a arr(error), k int :: k >= 0 ==> errFold(a, k+1) == errAppend(errFold(a, k), a[k])
+//@ axiom errFold_frame: forall a arr(error), k int, j int, v error :: j >= k ==> errFold(store(a, j, v), k) == errFold(a, k)
+
+// ---------------------------------------------------------------------------
+// interface contracts
+
+//@ iface zapcore.LevelEnabler.Enabled
+//@   modifies nothing
+//@   ensures result == enabled(self, arg0)
+
+//@ iface zapcore.Core.Check
+//@   modifies $all
+
+//@ iface zapcore.WriteSyncer.Write
+//@   modifies $user
+
+//@ iface io.Writer.Write
+//@   modifies $user
+
+//@ iface zapcore.WriteSyncer.Sync
+//@   modifies $user
+
+//@ callback zapcore.sampler.hook
+//@   modifies $user
+
+// ---------------------------------------------------------------------------
+// sampler.go (C11)
+
+//@ spec func pass(n uint64, first uint64, th uint64) bool = n <= first || (th != 0 && (n - first) % th == 0)
+
+//@ func zapcore.fnv32a
+//@   props C11
+//@   arith bv
+//@   flags nopanic pure
+//@   loop 1 invariant 0 <= i && i <= len(s)
+
+//@ func (*zapcore.counters).get
+//@   props C11
+//@   arith bv
+//@   flags nopanic pure
+//@   requires cs != nil
+//@   requires _minLevel <= lvl && lvl <= _maxLevel
+//@   ensures result == &cs[lvl - _minLevel][fnv32a(key) % 4096]
+
+//@ func (*zapcore.counter).IncCheckReset
+//@   props C11
+//@   arith bv
+//@   flags nopanic
+//@   requires c != nil
+//@   modifies c.resetAt.v, c.counter.v
+//@   ensures old(c.resetAt.v) > unixNano(t) ==> c.counter.v == old(c.counter.v) + 1 && c.resetAt.v == old(c.resetAt.v) && result == c.counter.v
+//@   ensures old(c.resetAt.v) <= unixNano(t) ==> c.counter.v == 1 && c.resetAt.v == unixNano(t) + int64(tick) && result == 1
+
+//@ func (*zapcore.sampler).Check
+//@   props C11 C05
+//@   arith bv
+//@   flags nopanic
+//@   requires s != nil && s.counts != nil && s.hook != nil && s.Core != nil
+//@   track H = field zapcore.sampler.hook
+//@   track FWD = invoke zapcore.Core.Check
+//@   track INC = call (*zapcore.counter).IncCheckReset
+//@   ensures !enabled(old(s.Core), ent.Level) ==> result == ce && #H == 0 && #FWD == 0 && #INC == 0
+//@   ensures enabled(old(s.Core), ent.Level) && !(_minLevel <= ent.Level && ent.Level <= _maxLevel) ==> #INC == 0 && #H == 0 && #FWD == 1 && FWD.recv[0] == old(s.Core) && FWD.arg0[0] == ent && FWD.arg1[0] == ce && result == FWD.ret0[0]
+//@   ensures enabled(old(s.Core), ent.Level) && _minLevel <= ent.Level && ent.Level <= _maxLevel ==> #INC == 1 && INC.recv[0] == counters.get(old(s.counts), ent.Level, ent.Message) && INC.arg0[0] == ent.Time && INC.arg1[0] == old(s.tick) && #H == 1 && H.arg0[0] == ent
+//@   ensures enabled(old(s.Core), ent.Level) && _minLevel <= ent.Level && ent.Level <= _maxLevel && pass(INC.ret0[0], old(s.first), old(s.thereafter)) ==> H.arg1[0] == LogSampled && #FWD == 1 && FWD.recv[0] == old(s.Core) && FWD.arg0[0] == ent && FWD.arg1[0] == ce && result == FWD.ret0[0]
+//@   ensures enabled(old(s.Core), ent.Level) && _minLevel <= ent.Level && ent.Level <= _maxLevel && !pass(INC.ret0[0], old(s.first), old(s.thereafter)) ==> H.arg1[0] == LogDropped && #FWD == 0 && result == ce
+
+// ---------------------------------------------------------------------------
+// write_syncer.go (C13)
+
+//@ func (zapcore.multiWriteSyncer).Write
+//@   props C13 C10
+//@   flags nopanic
+//@   requires forall k int :: 0 <= k && k < len(ws) ==> ws[k] != nil
+//@   track W = invoke zapcore.WriteSyncer.Write
+//@   ensures #W == len(ws)
+//@   ensures forall k int :: 0 <= k && k < len(ws) ==> W.recv[k] == ws[k] && W.arg0[k] == p
+//@   ensures len(ws) > 0 ==> result.0 == minOver(W.ret0, len(ws))
+//@   ensures result.1 == errFold(W.ret1, len(ws))
+//@   loop 1 invariant 0 <= $idx && $idx <= len(ws) && #W == $idx
+//@   loop 1 invariant forall k int :: 0 <= k && k < $idx ==> W.recv[k] == ws[k] && W.arg0[k] == p
+//@   loop 1 invariant $idx > 0 ==> nWritten == minOver(W.ret0, $idx)
+//@   loop 1 invariant writeErr == errFold(W.ret1, $idx)
+
+//@ func (zapcore.multiWriteSyncer).Sync
+//@   props C13 C10
+//@   flags nopanic
+//@   requires forall k int :: 0 <= k && k < len(ws) ==> ws[k] != nil
+//@   track S = invoke zapcore.WriteSyncer.Sync
+//@   ensures #S == len(ws)
+//@   ensures forall k int :: 0 <= k && k < len(ws) ==> S.recv[k] == ws[k]
+//@   ensures result == errFold(S.ret0, len(ws))
+//@   loop 1 invariant 0 <= $idx && $idx <= len(ws) && #S == $idx
+//@   loop 1 invariant forall k int :: 0 <= k && k < $idx ==> S.recv[k] == ws[k]
+//@   loop 1 invariant err == errFold(S.ret0, $idx)
+
+//@ func zapcore.NewMultiWriteSyncer
+//@   props C13
+//@   flags nopanic
+//@   ensures len(ws) == 1 ==> result == ws[0]
+//@   ensures len(ws) != 1 ==> typeof(result) == type(multiWriteSyncer) && as(result, type(multiWriteSyncer)) == ws
+
+//@ func zapcore.AddSync
+//@   props C13
+//@   flags nopanic
+//@   ensures implements(w, type(WriteSyncer)) ==> result == w
+//@   ensures !implements(w, type(WriteSyncer)) ==> typeof(result) == type(writerWrapper) && as(result, type(writerWrapper)).Writer == w
+
+//@ func (zapcore.writerWrapper).Sync
+//@   props C13
+//@   flags nopanic
+//@   track WR = invoke io.Writer.Write
+//@   modifies nothing
+//@   ensures result == nil && #WR == 0
+
+//@ func zapcore.Lock
+//@   props C13
+//@   flags nopanic
+//@   ensures typeof(ws) == type(*lockedWriteSyncer) ==> result == ws
+//@   ensures typeof(ws) != type(*lockedWriteSyncer) ==> typeof(result) == type(*lockedWriteSyncer) && fresh(as(result, type(*lockedWriteSyncer))) && as(result, type(*lockedWriteSyncer)).ws == ws
+
+//@ func (*zapcore.lockedWriteSyncer).Write
+//@   props C13 C04 C09
+//@   flags nopanic
+//@   requires s != nil && s.ws != nil
+//@   requires !held(&s.Mutex)
+//@   track W = invoke zapcore.WriteSyncer.Write
+//@   assert at call 1 of zapcore.WriteSyncer.Write : held(&s.Mutex)
+//@   ensures #W == 1 && W.recv[0] == old(s.ws) && W.arg0[0] == bs
+//@   ensures result.0 == W.ret0[0] && result.1 == W.ret1[0]
+//@   ensures !held(&s.Mutex)
+
+//@ func (*zapcore.lockedWriteSyncer).Sync
+//@   props C13 C04 C09
+//@   flags nopanic
+//@   requires s != nil && s.ws != nil
+//@   requires !held(&s.Mutex)
+//@   track S = invoke zapcore.WriteSyncer.Sync
+//@   assert at call 1 of zapcore.WriteSyncer.Sync : held(&s.Mutex)
+//@   ensures #S == 1 && S.recv[0] == old(s.ws)
+//@   ensures result == S.ret0[0]
+//@   ensures !held(&s.Mutex)
+
+// ---------------------------------------------------------------------------
+// buffered_write_syncer.go (C12; also C13, C04, C09)
+//
+// Object invariant BInv(s), valid whenever s.mu is not held by the caller:
+//   s.initialized ==> writer/ticker/stop/done are set, the bufio state is in range,
+//                     pend/sunk describe the writer, and stopped <==> closed(stop).
+
+//@ iface zapcore.Clock.NewTicker
+//@   modifies $user
+//@   ensures result != nil
+
+//@ func (*zapcore.BufferedWriteSyncer).initialize
+//@   props C12
+//@   flags nopanic
+//@   requires s != nil && held(&s.mu) && !s.initialized && s.WS != nil
+//@   modifies s.Clock, s.ticker, s.writer, s.stop, s.done, s.initialized, pend[s.writer], sunk[s.writer], $user
+//@   ensures s.initialized && s.writer != nil && s.ticker != nil && s.stop != nil && s.done != nil && s.stop != s.done
+//@   ensures fresh(s.writer) && s.writer.n == 0 && s.writer.err == nil && len(s.writer.buf) > 0 && pend[s.writer] == "" && sunk[s.writer] == ""
+//@   ensures old(s.Size) > 0 ==> len(s.writer.buf) == old(s.Size)
+//@   ensures old(s.Size) == 0 ==> len(s.writer.buf) == 256 * 1024
+//@   ensures !closed(s.stop) && !closed(s.done) && s.stopped == old(s.stopped) && s.WS == old(s.WS) && s.Size == old(s.Size)
+//@   ensures held(&s.mu)
+
+//@ func (*zapcore.BufferedWriteSyncer).Write
+//@   props C12 C13 C04 C09
+//@   flags nopanic
+//@   requires s != nil && !held(&s.mu) && s.WS != nil
+//@   requires s.initialized ==> s.writer != nil && 0 <= s.writer.n && s.writer.n <= len(s.writer.buf) && len(pend[s.writer]) == s.writer.n
+//@   assert at call 1 of (*bufio.Writer).Write : held(&s.mu) && (len(bs) <= len(s.writer.buf) - s.writer.n || s.writer.n == 0)
+//@   ensures !held(&s.mu)
+//@   ensures result.1 == nil ==> result.0 == len(bs)
+//@   ensures s.initialized && s.writer != nil && 0 <= s.writer.n && s.writer.n <= len(s.writer.buf) && len(pend[s.writer]) == s.writer.n
+//@   ensures old(s.initialized) ==> s.writer == old(s.writer)
+//@   ensures old(s.initialized) && result.1 == nil && old(s.writer.err) == nil ==> cat(sunk[s.writer], pend[s.writer]) == cat(cat(old(sunk[s.writer]), old(pend[s.writer])), seq(bs))
+//@   ensures !old(s.initialized) && result.1 == nil ==> cat(sunk[s.writer], pend[s.writer]) == seq(bs)
+
+//@ func (*zapcore.BufferedWriteSyncer).Sync
+//@   props C12 C04 C09
+//@   flags nopanic
+//@   requires s != nil && !held(&s.mu) && s.WS != nil
+//@   requires s.initialized ==> s.writer != nil && 0 <= s.writer.n && s.writer.n <= len(s.writer.buf) && len(pend[s.writer]) == s.writer.n
+//@   track FL = call (*bufio.Writer).Flush
+//@   track SY = invoke zapcore.WriteSyncer.Sync
+//@   modifies s.writer.n, s.writer.err, sunk[s.writer], pend[s.writer], held(&s.mu), $user
+//@   ensures s.initialized ==> s.writer != nil && 0 <= s.writer.n && s.writer.n <= len(s.writer.buf) && len(pend[s.writer]) == s.writer.n
+//@   assert at call 1 of (*bufio.Writer).Flush : held(&s.mu)
+//@   assert at call 1 of zapcore.WriteSyncer.Sync : held(&s.mu)
+//@   ensures !held(&s.mu)
+//@   ensures #SY == 1 && SY.recv[0] == old(s.WS)
+//@   ensures old(s.initialized) ==> #FL == 1 && FL.recv[0] == old(s.writer) && FL.ts[0] < SY.ts[0]
+//@   ensures !old(s.initialized) ==> #FL == 0
+//@   ensures old(s.initialized) && result == nil && old(s.writer.err) == nil ==> pend[old(s.writer)] == "" && sunk[old(s.writer)] == cat(old(sunk[s.writer]), old(pend[s.writer]))
+//@   ensures old(s.initialized) && result == nil ==> FL.ret0[0] == nil && SY.ret0[0] == nil
+
+//@ func (*zapcore.BufferedWriteSyncer).flushLoop
+//@   props C12
+//@   flags nopanic
+//@   requires s != nil && s.initialized && s.ticker != nil && s.done != nil && !closed(s.done) && s.WS != nil && !held(&s.mu)
+//@   requires s.initialized ==> s.writer != nil && 0 <= s.writer.n && s.writer.n <= len(s.writer.buf) && len(pend[s.writer]) == s.writer.n
+//@   loop 1 invariant s.initialized && s.ticker == old(s.ticker) && s.ticker != nil && s.done == old(s.done) && !closed(s.done) && s.WS != nil && !held(&s.mu)
+//@   loop 1 invariant s.initialized ==> s.writer != nil && 0 <= s.writer.n && s.writer.n <= len(s.writer.buf) && len(pend[s.writer]) == s.writer.n
+//@   ensures closed(old(s.done))
+
+//@ func (*zapcore.BufferedWriteSyncer).Stop$1
+//@   props C12 C09
+//@   flags nopanic
+//@   requires *s != nil && !held(&s.mu)
+//@   requires s.initialized ==> s.ticker != nil && s.stop != nil && (s.stopped <==> closed(s.stop))
+//@   modifies s.stopped, held(&s.mu), closed(s.stop), $user
+//@   ensures !held(&s.mu)
+//@   ensures result <==> (old(s.initialized) && !old(s.stopped))
+//@   ensures result ==> s.stopped && closed(s.stop) && !old(closed(s.stop))
+//@   ensures !result ==> s.stopped == old(s.stopped) && (old(s.initialized) ==> closed(s.stop) == old(closed(s.stop)))
+//@   ensures s.initialized == old(s.initialized) && s.stop == old(s.stop)
+
+//@ func (*zapcore.BufferedWriteSyncer).Stop
+//@   props C12 C09
+//@   flags nopanic
+//@   requires s != nil && !held(&s.mu) && s.WS != nil
+//@   requires s.initialized ==> s.writer != nil && s.ticker != nil && s.stop != nil && s.done != nil && (s.stopped <==> closed(s.stop)) && 0 <= s.writer.n && s.writer.n <= len(s.writer.buf) && len(pend[s.writer]) == s.writer.n
+//@   track SY = call (*zapcore.BufferedWriteSyncer).Sync
+//@   track ST = call (*zapcore.BufferedWriteSyncer).Stop$1
+//@   ensures !held(&s.mu)
+//@   ensures #ST == 1
+//@   ensures old(s.initialized) && !old(s.stopped) ==> #SY == 1 && err == SY.ret0[0]
+//@   ensures !(old(s.initialized) && !old(s.stopped)) ==> #SY == 0 && err == nil
